@@ -42,6 +42,24 @@ var thresholds = func() []*big.Int {
 	return ts
 }()
 
+// ThresholdInt64 returns (sig, k) with sig = floor(T/10^k)+delta fitting an
+// int64 and 15..19 digits long: sig*10^k lands next to the internal threshold T.
+func (r *RNG) ThresholdInt64() (int64, int) {
+	for try := 0; try < 40; try++ {
+		t := thresholds[r.Intn(len(thresholds))]
+		k := ref.NumDigits(t) - 19 + r.Intn(5)
+		if k < 0 {
+			k = 0
+		}
+		c := new(big.Int).Quo(t, ref.Pow10(k))
+		c.Add(c, big.NewInt(int64(r.Pick(0, 0, -1, 1, -2, 2, r.Range(-50, 50)))))
+		if c.IsInt64() && c.Sign() > 0 {
+			return c.Int64(), k
+		}
+	}
+	return 1, 0
+}
+
 // ThresholdCoef returns floor(T/10^j)+delta for an internal threshold T.
 func (r *RNG) ThresholdCoef() *big.Int {
 	for try := 0; try < 40; try++ {
